@@ -91,6 +91,8 @@ Fixpoint ind (n : nat) : string :=
 
 Definition bin (a op b : string) : string := "(" ++ a ++ " " ++ op ++ " " ++ b ++ ")".
 
+Definition sdom_str (d : sdom) : string := match d with SzA => "SzA" | SzB => "SzB" | SzC => "SzC" end.
+
 Definition prim_str (q : style) (p : prim) (a : list string) : string :=
   match p, a with
   | (PAdd _ | PCat), [x; y] => bin x "+" y
@@ -117,6 +119,8 @@ Definition prim_str (q : style) (p : prim) (a : list string) : string :=
   | (PLen | PLLen _ | PALen _), [x] => "(# " ++ x ++ ")"
   | PANew b, [x; y] => "(new(" ++ x ++ ", " ++ y ++ ")@Array(" ++ bty_str q b ++ "))"
   | PAGet _, [x; y] => "(" ++ x ++ ".(" ++ y ++ "))"
+  | PSzLimit d, [] => "(limit$" ++ sdom_str d ++ ")"
+  | PSzTwice d, [] => "(twice()$" ++ sdom_str d ++ ")"
   | PLCons _, [x; y] => "cons(" ++ x ++ ", " ++ y ++ ")"
   | PLFirst _, [x] => "first(" ++ x ++ ")"
   | PLRest _, [x] => "rest(" ++ x ++ ")"
@@ -296,6 +300,53 @@ Definition exn_item (it : item) : bool :=
                 || exn_e (fd_result fd))%bool
   | IStmt s => exn_s s
   end.
+
+(* does the program use the Sized domains (then the header defines them) *)
+Fixpoint sz_e (e : expr) : bool :=
+  match e with
+  | ELit _ | EGlob _ | ELoc _ => false
+  | EPrim p args => (match p with PSzLimit _ | PSzTwice _ => true | _ => false end || existsb sz_e args)%bool
+  | ECall _ args | EListLit _ args | ERec _ args | EArrLit _ args | EClo _ _ _ args => existsb sz_e args
+  | EApp fn args => (sz_e fn || existsb sz_e args)%bool
+  | EIf c a b => (sz_e c || sz_e a || sz_e b)%bool
+  | EAnd a b | EOr a b => (sz_e a || sz_e b)%bool
+  | ESeq ss e' => (existsb sz_s ss || sz_e e')%bool
+  | EMac _ e' | EField _ e' | EUni _ _ e' | ECase _ e' | EUGet _ e' => sz_e e'
+  end
+with sz_s (s : stmt) : bool :=
+  match s with
+  | SAssG _ e | SAssL _ e | SReturn e | SError e | SSetG _ _ e | SSetL _ _ e => sz_e e
+  | SSetIG _ j e | SSetIL _ j e => (sz_e j || sz_e e)%bool
+  | SPrint es | SCall _ es => existsb sz_e es
+  | SIf c a b => (sz_e c || existsb sz_s a || existsb sz_s b)%bool
+  | SWhile c body => (sz_e c || existsb sz_s body)%bool
+  | SFor lo hi body => (sz_e lo || sz_e hi || existsb sz_s body)%bool
+  | SForIn _ l body => (sz_e l || existsb sz_s body)%bool
+  | SBreak | SIterate | SNever | SThrow _ => false
+  | SExit c s' => (sz_e c || sz_s s')%bool
+  | SExitV c e => (sz_e c || sz_e e)%bool
+  | STry body hs => (existsb sz_s body || existsb (fun h => existsb sz_s (snd h)) hs)%bool
+  end.
+Definition sz_item (it : item) : bool :=
+  match it with
+  | IConst _ e | IVar _ e => sz_e e
+  | IFun fd => (existsb (fun le => sz_e (snd le)) (fd_locals fd) || existsb sz_s (fd_body fd) || sz_e (fd_result fd))%bool
+  | IStmt s => sz_s s
+  end.
+
+(* a category with a constant export that has a default value and a default function using
+   it; SzA over-rides the constant, SzB nothing, SzC the function (langtype.tex:1488-1528) *)
+Definition sized_decls (q : style) : string :=
+  "define Sized: Category == with {" ++ nl ++
+  "    limit: " ++ bty_str q BMI ++ ";" ++ nl ++
+  "    twice: () -> " ++ bty_str q BMI ++ ";" ++ nl ++
+  "    default {" ++ nl ++
+  "        limit: " ++ bty_str q BMI ++ " == 10;" ++ nl ++
+  "        twice(): " ++ bty_str q BMI ++ " == 2 * limit;" ++ nl ++
+  "    }" ++ nl ++ "}" ++ nl ++
+  "SzA: Sized == add { limit: " ++ bty_str q BMI ++ " == 50; }" ++ nl ++
+  "SzB: Sized == add { }" ++ nl ++
+  "SzC: Sized == add { twice(): " ++ bty_str q BMI ++ " == limit + 1; }" ++ nl.
 
 (* does the program use the Box domains (then the header defines and imports them) *)
 Definition is_box_ty (t : ty) : bool := match t with TBox _ _ => true | _ => false end.
@@ -594,6 +645,7 @@ Definition header_of (q : style) (p : prog) : string :=
   ++ String.concat "" (map (fun fs => "import from " ++ ty_str q (TUni fs) ++ ";" ++ nl)
                            (dedup_recs (flat_map unis_item p)))
   ++ (if existsb exn_item p then exn_decls else "")
-  ++ (if existsb box_item p then dom_decls q else "").
+  ++ (if existsb box_item p then dom_decls q else "")
+  ++ (if existsb sz_item p then sized_decls q else "").
 
 Definition render (q : style) (p : prog) : string := header_of q p ++ String.concat "" (items_src q 0 p).
